@@ -46,6 +46,10 @@ def rich_object(ctx, fmt, reason=None):
         mo_kind, occ = "generalized", "closed"
     elif reason == "occs_aminusb":
         occ = "aminusb"
+    elif reason == "occs_aminusb-zero":
+        occ = "aminusb-zero"
+    elif reason == "occs_aminusb-singlet":
+        occ = "aminusb-singlet"
     elif reason == "generalized-contraction":
         shells = [(0, [0, 0], ["c", "c"], 2), (1, [1], ["c"], 1)]
     elif reason == "ps-ordered-contraction":
@@ -160,13 +164,13 @@ def h_required(ctx, fmt="xyz", many=False):
 
 REASONS = {
     "fchk": ["generalized-orbitals", "generalized-contraction", "ps-ordered-contraction", "three-contractions", "non-aufbau"],
-    "molden": ["generalized-orbitals", "occs_aminusb", "generalized-contraction", "ps-ordered-contraction", "three-contractions"],
-    "molekel": ["generalized-orbitals", "occs_aminusb", "generalized-contraction", "ps-ordered-contraction", "three-contractions"],
-    "wfn": ["generalized-orbitals", "occs_aminusb", "generalized-contraction", "ps-ordered-contraction", "pure-functions"],
-    "wfx": ["generalized-orbitals", "occs_aminusb", "generalized-contraction", "ps-ordered-contraction", "pure-functions"],
+    "molden": ["generalized-orbitals", "occs_aminusb", "occs_aminusb-zero", "occs_aminusb-singlet", "generalized-contraction", "ps-ordered-contraction", "three-contractions"],
+    "molekel": ["generalized-orbitals", "occs_aminusb", "occs_aminusb-zero", "occs_aminusb-singlet", "generalized-contraction", "ps-ordered-contraction", "three-contractions"],
+    "wfn": ["generalized-orbitals", "occs_aminusb", "occs_aminusb-zero", "occs_aminusb-singlet", "generalized-contraction", "ps-ordered-contraction", "pure-functions"],
+    "wfx": ["generalized-orbitals", "occs_aminusb", "occs_aminusb-zero", "occs_aminusb-singlet", "generalized-contraction", "ps-ordered-contraction", "pure-functions"],
     "json_qcschema": ["missing-schema-name", "unsupported-schema"],
 }
-CONVERTIBLE = {"occs_aminusb", "generalized-contraction", "ps-ordered-contraction", "three-contractions"}
+CONVERTIBLE = {"occs_aminusb", "occs_aminusb-zero", "occs_aminusb-singlet", "generalized-contraction", "ps-ordered-contraction", "three-contractions"}
 
 
 def h_rejection(ctx, fmt="wfn"):
